@@ -105,6 +105,24 @@ WRITEOUT_STEPS = [
     ("write", r"write_all_at\s*\(|write_all\s*\("),
 ]
 
+CTRL_STEPS = [
+    ("tree_commit", r"Tree::commit\s*\("),
+    ("prepare_sync", r"prepare_sync\s*\("),
+    ("request_bbn_fsync", r"bbn_fsync\s*\.\s*fsync\s*\("),
+    ("request_ln_fsync", r"ln_fsync\s*\.\s*fsync\s*\("),
+    ("join_begin_task", r"join_task\s*\(\s*&\s*self\s*\.\s*begin_sync_result_rx\s*\)"),
+    ("join_wal_task", r"join_task\s*\(\s*&\s*self\s*\.\s*pre_meta_result_rx\s*\)"),
+    ("await_bbn_fsync", r"bbn_fsync\s*\.\s*wait\s*\("),
+    ("await_ln_fsync", r"ln_fsync\s*\.\s*wait\s*\("),
+    ("set_ht_pages", r"ht_to_write\s*\.\s*lock\s*\(\s*\)\s*=\s*Some"),
+    ("spawn_wal_writeout", r"spawn_wal_writeout\s*\("),
+    ("take_ht_pages", r"ht_to_write\s*\.\s*lock\s*\(\s*\)\s*\.\s*take\s*\("),
+    ("write_ht_call", r"writeout::write_ht\s*\("),
+    ("truncate_wal_call", r"writeout::truncate_wal\s*\("),
+    ("write_wal_call", r"writeout::write_wal\s*\("),
+    ("spawn_task", r"\bspawn_task\s*\("),
+]
+
 # (lean name, file, fn name, enclosing `impl X` (or None), steps, allow_loops)
 TARGETS = [
     ("finished_commit", "nomt/src/lib.rs", "commit", "FinishedSession", LIB_STEPS, False),
@@ -119,11 +137,17 @@ TARGETS = [
     ("write_ht", "nomt/src/bitbox/writeout.rs", "write_ht", None, WRITEOUT_STEPS, True),
     ("truncate_wal", "nomt/src/bitbox/writeout.rs", "truncate_wal", None, WRITEOUT_STEPS, False),
     ("write_wal", "nomt/src/bitbox/writeout.rs", "write_wal", None, WRITEOUT_STEPS, False),
+    ("beatree_begin_sync", "nomt/src/beatree/mod.rs", "begin_sync", "SyncController", CTRL_STEPS, False),
+    ("beatree_wait_pre_meta", "nomt/src/beatree/mod.rs", "wait_pre_meta", "SyncController", CTRL_STEPS, False),
+    ("bitbox_begin_sync", "nomt/src/bitbox/mod.rs", "begin_sync", "SyncController", CTRL_STEPS, False),
+    ("bitbox_spawn_wal_writeout", "nomt/src/bitbox/mod.rs", "spawn_wal_writeout", "SyncController", CTRL_STEPS, False),
+    ("bitbox_wait_pre_meta", "nomt/src/bitbox/mod.rs", "wait_pre_meta", "SyncController", CTRL_STEPS, False),
+    ("bitbox_post_meta", "nomt/src/bitbox/mod.rs", "post_meta", "SyncController", CTRL_STEPS, False),
 ]
 
 
 ALL_NAMES = []
-for _steps in (LIB_STEPS, SYNC_STEPS, STORE_STEPS, META_STEPS, RECOVER_STEPS, WRITEOUT_STEPS):
+for _steps in (LIB_STEPS, SYNC_STEPS, STORE_STEPS, META_STEPS, RECOVER_STEPS, WRITEOUT_STEPS, CTRL_STEPS):
     for _n, _ in _steps:
         if _n not in ALL_NAMES:
             ALL_NAMES.append(_n)
